@@ -759,3 +759,125 @@ func scenC13(run *vlab.Run, sx, tmp string) {
 		run.Distinct(file)
 	}
 }
+
+// ---------------------------------------------------------------------------
+// c20: the receiver of the real binary survives read faults of a real socket. The link goes down in
+// the middle of a scan (reads fail with ENETDOWN / "packet poll failed", writes fail) and comes back:
+// sx must not crash, the read errors are reported, and - the point - reading continues: replies to
+// probes sent after the link came back are still reported. (How many frames the kernel dropped while
+// the link was going down is not sx's business; coverage is not judged here.)
+
+func init() { scenarios["c20"] = scenC20 }
+
+func scenC20(run *vlab.Run, sx, tmp string) {
+	rng := run.Rand("c20wire")
+	n := run.Pick(12, 100)
+	for i := 0; i < n; i++ {
+		if !run.Mine(i) {
+			continue
+		}
+		kind := []string{"icmp", "arp", "tcp"}[i%3]
+		s := &wireSpec{Kind: kind, Link: "tap", Mode: "subnet", Subnet: fmt.Sprintf("10.9.%d.0/23", 2*(2+rng.Intn(100)))}
+		switch kind {
+		case "icmp":
+			s.Cmd = []string{"icmp"}
+		case "arp":
+			s.Cmd = []string{"arp"}
+		default:
+			s.Cmd, s.Ports = []string{"tcp", "syn"}, "80"
+		}
+		s.Extra = []string{"--srcip", foreignSrcIP, "--rate", "1000/s"}
+		downAt := 50 + rng.Intn(150)
+		downMs := []int{30, 100, 200}[rng.Intn(3)]
+		args, stdin := wireArgs(tmp, s)
+		run.Case(fmt.Sprintf("c20w%03d", i), map[string]interface{}{"argv": args, "link_down_at_probe": downAt, "down_ms": downMs})
+		for attempt := 0; attempt < 3; attempt++ {
+			var mu sync.Mutex
+			nTx := 0
+			var upAt time.Time
+			var want []string
+			prng := rand.New(rand.NewSource(int64(i)))
+			res := RunCase(sx, &CaseSpec{Args: args, Stdin: stdin, Setup: commonWorld("tap"), Timeout: 60 * time.Second,
+				OnTx: func(cr *CaseRun, d *Dev, frame []byte) {
+					dec, a, port, ok := decodeProbe(kind, frame, oracle.LinkEthernet)
+					if !ok {
+						return
+					}
+					mu.Lock()
+					nTx++
+					k := nTx
+					up := upAt
+					mu.Unlock()
+					if k == downAt {
+						go func() {
+							sh("ip", "link", "set", "tap0", "down")
+							time.Sleep(time.Duration(downMs) * time.Millisecond)
+							sh("ip", "link", "set", "tap0", "up")
+							mu.Lock()
+							upAt = time.Now()
+							mu.Unlock()
+						}()
+					}
+					// answer every probe that leaves at least 50 ms after the link came back
+					if !up.IsZero() && time.Since(up) > 50*time.Millisecond {
+						fr, rec := replyFor(kind, oracle.LinkEthernet, dec, a, port, prng)
+						mu.Lock()
+						want = append(want, rec)
+						mu.Unlock()
+						cr.Inject(d, fr)
+					}
+				}})
+			run.Eval(1)
+			desc := map[string]interface{}{"argv": args, "link_down_at_probe": downAt, "down_ms": downMs}
+			if res.SetupErr != "" {
+				run.Inconclusive(res.SetupErr)
+				break
+			}
+			if t := res.crashText(); t != "" {
+				run.Violation("crash-on-link-flap", "sx crashed when the link went down and up: "+strings.SplitN(t, "\n", 2)[0], map[string]interface{}{"case": desc, "stderr": t})
+				break
+			}
+			if res.TimedOut {
+				if res.Parked {
+					run.Violation("no-exit-after-link-flap", "sx did not exit after the link went down and up (parked)", map[string]interface{}{"case": desc, "goroutines": tailStr(res.Dump, 20000)})
+				} else {
+					run.Inconclusive("watchdog")
+				}
+				break
+			}
+			got := map[string]int{}
+			for _, l := range res.Stdout {
+				if rec, err := parseRecord(strings.TrimSpace(l)); err == nil {
+					got[rec]++
+				}
+			}
+			missing := 0
+			for _, rec := range want {
+				if got[rec] == 0 {
+					missing++
+				} else {
+					got[rec]--
+				}
+			}
+			nErr := strings.Count(res.Stderr, `"level":"error"`)
+			if len(want) == 0 {
+				run.Inconclusive("the scan ended before the link was back")
+				break
+			}
+			if missing > 0 && attempt < 2 {
+				run.Count("link_flap_runs_retried", 1)
+				continue
+			}
+			if missing > 0 {
+				run.Violation("receiver-dead-after-read-faults", fmt.Sprintf("%d of %d replies to probes sent after the link was back were not reported (%d error records on stderr): the receive loop did not survive the read faults: %s", missing, len(want), nErr, strings.Join(args, " ")), map[string]interface{}{"case": desc, "stderr_tail": tailStr(res.Stderr, 1500)})
+			} else {
+				run.Count("link_flaps_survived", 1)
+				run.Count("replies_after_flap_reported", int64(len(want)))
+			}
+			run.Count("c20_wire_runs", 1)
+			run.Count("error_records_during_flaps", int64(nErr))
+			run.Distinct(fmt.Sprintf("%s/%d/%d", strings.Join(args, " "), downAt, downMs))
+			break
+		}
+	}
+}
